@@ -17,6 +17,8 @@
 //   H <goroutine> <inv> <resp> fadd <tok> => <id> | frem <id> => ok | fget <id> => <tok|->      (rec rounds)
 //   A <goroutine> <tok> <id>   D <id>                                                           (heavy rounds)
 //   F faces id=tok;...   F dispatch id=tok;...        FaceTable.Get / dispatch.GetFace for every id >= n0 afterwards
+//   R g<k> ...                           forced interleaving (see forcedRounds): op1 is parked at the boundary between the RIB
+//                                        and the FIB critical section while a complete second RIB operation is attempted
 //   X <text>                             anomaly (panic in an operation, watchdog timeout = possible deadlock)
 //   E
 package conc
@@ -261,6 +263,167 @@ func (g *gen) op(names []iname, readShare int) op {
 	}
 }
 
+// gateFib wraps the FIB handed to the RIB (table.FibStrategyTable is an interface variable): a harness-side delegating
+// shim that can park one caller at the entry of ReplaceNextHopsEnc / InsertNextHopEnc / ClearNextHopsEnc, i.e. exactly at the
+// boundary between the RIB critical section and the FIB critical section.  No production code is changed.
+type gateFib struct {
+	table.FibStrategy
+	mu      sync.Mutex
+	armed   bool
+	parked  chan struct{}
+	release chan struct{}
+}
+
+func (g *gateFib) arm() {
+	g.mu.Lock()
+	g.armed, g.parked, g.release = true, make(chan struct{}), make(chan struct{})
+	g.mu.Unlock()
+}
+
+func (g *gateFib) gate() {
+	g.mu.Lock()
+	if !g.armed {
+		g.mu.Unlock()
+		return
+	}
+	g.armed = false
+	p, r := g.parked, g.release
+	g.mu.Unlock()
+	close(p)
+	<-r
+}
+
+func (g *gateFib) ReplaceNextHopsEnc(u []table.FibNextHopsUpdate) {
+	g.gate()
+	g.FibStrategy.ReplaceNextHopsEnc(u)
+}
+func (g *gateFib) InsertNextHopEnc(n enc.Name, nh uint64, c uint64) {
+	g.gate()
+	g.FibStrategy.InsertNextHopEnc(n, nh, c)
+}
+func (g *gateFib) ClearNextHopsEnc(n enc.Name) {
+	g.gate()
+	g.FibStrategy.ClearNextHopsEnc(n)
+}
+
+// forcedRounds: deterministic interleavings the scheduler rarely produces.  For every pair (op1, op2) of RIB operations
+// (register / unregister / face teardown) on the same, an ancestor or a descendant prefix, and both FIBs: op1 is parked
+// when it is about to enter the FIB; op2 is then started and given time to complete.  With the RIB mutex held across the
+// FIB installation op2 simply waits (blocked = good) and the round is op1;op2.  If op2 can complete while op1 is parked,
+// op1's stale batch is installed after it.  Either way the recorded history goes to the sequential-witness search: the
+// final tables must equal op1;op2 or op2;op1 on the C06 model.
+func forcedRounds(t *testing.T, w *bufio.Writer) {
+	P, A, D := iname{1, 2}, iname{1}, iname{1, 2, 3}
+	universe := []iname{{}, A, P, D, {1, 2, 3, 4}, {1, 5}, {1, 2, 6}}
+	prologue := []op{
+		{"reg", A, []uint64{1, 0, 5, 1}},
+		{"reg", P, []uint64{2, 0, 7, 1}},
+		{"reg", D, []uint64{3, 0, 9, 0}},
+	}
+	faceOf := map[string]uint64{A.String(): 1, P.String(): 2, D.String(): 3}
+	op1s := []op{
+		{"reg", P, []uint64{4, 0, 1, 1}},
+		{"unreg", P, []uint64{2, 0}},
+		{"teardown", nil, []uint64{2}},
+	}
+	k := 0
+	for _, impl := range []string{"T", "H"} {
+		for _, o1 := range op1s {
+			for _, X := range []iname{P, A, D} {
+				op2s := []op{
+					{"reg", X, []uint64{5, 0, 2, 3}},
+					{"unreg", X, []uint64{faceOf[X.String()], 0}},
+					{"teardown", nil, []uint64{faceOf[X.String()]}},
+					{"reg", X, []uint64{faceOf[X.String()], 0, 3, 0}}, // re-registration: cost and flags change
+				}
+				for _, o2 := range op2s {
+					k++
+					m := 1 + k%3
+					core.GetConfig().Tables.Fib.Hashtable.M = uint16(m)
+					if impl == "H" {
+						table.CreateFIBTable("hashtable")
+					} else {
+						table.CreateFIBTable("nametree")
+					}
+					gf := &gateFib{FibStrategy: table.FibStrategyTable}
+					table.FibStrategyTable = gf
+					table.VerifResetRib()
+					var clock atomic.Int64
+					var recs []rec
+					for _, o := range prologue {
+						inv := clock.Add(1)
+						res := o.run()
+						recs = append(recs, rec{0, inv, clock.Add(1), o, res})
+					}
+					gf.arm()
+					done1, done2 := make(chan rec, 1), make(chan rec, 1)
+					go func() {
+						inv := clock.Add(1)
+						res := o1.run()
+						done1 <- rec{1, inv, clock.Add(1), o1, res}
+					}()
+					var r1, r2 rec
+					got1 := false
+					select {
+					case <-gf.parked:
+					case r1 = <-done1: // op1 never reached the FIB
+						got1 = true
+					case <-time.After(10 * time.Second):
+						t.Fatalf("forced round %d: op1 neither reached the FIB nor returned", k)
+					}
+					parked := !got1
+					gf.mu.Lock()
+					gf.armed = false // at most op1 is ever parked
+					gf.mu.Unlock()
+					go func() {
+						inv := clock.Add(1)
+						res := o2.run()
+						done2 <- rec{2, inv, clock.Add(1), o2, res}
+					}()
+					got2 := false
+					select {
+					case r2 = <-done2: // op2 ran to completion while op1 was parked between the RIB and the FIB
+						got2 = true
+					case <-time.After(40 * time.Millisecond): // blocked behind op1: good
+					}
+					if parked {
+						close(gf.release)
+					}
+					for !got1 || !got2 {
+						select {
+						case r1 = <-done1:
+							got1 = true
+						case r2 = <-done2:
+							got2 = true
+						case <-time.After(20 * time.Second):
+							fmt.Fprintf(w, "R g%d %s %d 2\nX watchdog: forced interleaving %s | %s did not complete (deadlock?)\nE\n", k, impl, m, o1.String(), o2.String())
+							w.Flush()
+							t.Fatalf("forced round %d did not complete (deadlock?)", k)
+						}
+					}
+					recs = append(recs, r1, r2)
+					fmt.Fprintf(w, "R g%d %s %d 2\n", k, impl, m)
+					us := make([]string, len(universe))
+					for i, n := range universe {
+						us[i] = n.String()
+					}
+					fmt.Fprintf(w, "U %s\n", strings.Join(us, " "))
+					for _, r := range recs {
+						fmt.Fprintf(w, "H %d %d %d %s => %s\n", r.g, r.inv, r.resp, r.op.String(), r.res)
+					}
+					nh := make([]string, len(universe))
+					st := make([]string, len(universe))
+					for i, n := range universe {
+						nh[i] = nhStr(table.FibStrategyTable.FindNextHopsEnc(n.enc()))
+						st[i] = stratStr(table.FibStrategyTable.FindStrategyEnc(n.enc()))
+					}
+					fmt.Fprintf(w, "F nh %s\nF st %s\nF fib %s\nF sl %s\nF rib %s\nE\n", strings.Join(nh, "|"), strings.Join(st, "|"), fibListing(), stratListing(), ribListing())
+				}
+			}
+		}
+	}
+}
+
 // faceRound: goroutines register (FaceTable.Add), look up (Get) and tear down (Remove) stub faces concurrently.
 func faceRound(w *bufio.Writer, round int, g *gen, heavy bool) {
 	mk := func() face.LinkService { return face.MakeNullLinkService(face.MakeNullTransport()) }
@@ -426,6 +589,9 @@ func TestConc(t *testing.T) {
 	w := bufio.NewWriterSize(f, 1<<20)
 	defer w.Flush()
 	g := &gen{r: rand.New(rand.NewSource(seed))}
+	if os.Getenv("VERIF_NOFORCED") == "" {
+		forcedRounds(t, w)
+	}
 	start := time.Now()
 	ms := []int{1, 2, 3}
 
